@@ -12,7 +12,9 @@ type forExpander struct {
 	nextToken token
 	labelBuf  []string
 	exprBuf   []token
-	atEOF     bool
+	// a newline was seen after the labels collected in labelBuf
+	labelNewline bool
+	atEOF        bool
 
 	// for state fields
 	forCountLabel        string
@@ -129,6 +131,7 @@ func forLine(f *forExpander) forStateFn {
 	switch f.nextToken.typ {
 	case tokText:
 		f.labelBuf = make([]string, 0)
+		f.labelNewline = false
 		return forConsumeLabels
 	default:
 		return forConsumeEmitLine
@@ -159,7 +162,18 @@ func forConsumeLabels(f *forExpander) forStateFn {
 			f.next()
 			return forConsumeLabels
 		}
+	} else if f.nextToken.typ == tokComment && f.labelNewline {
+		// a comment line between a label and its instruction: it is
+		// passed on (ahead of the label) instead of being dropped, it
+		// may carry metadata or an assertion
+		f.tokens <- f.nextToken
+		f.tokens <- token{typ: tokNewline}
+		f.next()
+		return forConsumeLabels
 	} else if f.nextToken.typ == tokNewline || f.nextToken.typ == tokComment || f.nextToken.typ == tokColon {
+		if f.nextToken.typ == tokNewline && len(f.labelBuf) > 0 {
+			f.labelNewline = true
+		}
 		f.next()
 		return forConsumeLabels
 	} else {
